@@ -1374,7 +1374,7 @@ Proof.
   rewrite erase_arr in He. destruct (store_live h r a0 sid) eqn:Es; [|discriminate].
   destruct (erase_list h items) as [ys|] eqn:El; [|discriminate]. inversion He; subst. clear He.
   destruct (nth_error items i) as [old|] eqn:En; [|split; [discriminate|intros ? ? ? E; discriminate]].
-  split; [discriminate|]. intros h' v' res E. inversion E; subst. clear E.
+  split; [discriminate|]. intros h' v' res E. injection E as Eh Ev Er. subst v' res h.
   pose proof El as El2. apply erase_list_Forall2 in El2.
   destruct (Forall2_nth_error _ _ _ _ _ El2 En) as (aold & Han & Hold).
   apply vall_arr in Hnf. destruct Hnf as [HnfS Hnfi]. apply vall_arr in Hbs. destruct Hbs as [_ Hbsi].
